@@ -150,6 +150,19 @@ def _check_pair(ctx, repo, ci, init, w, rd, generic_writer):
     if not ctor_calls:
         ctx.bad("R-REPR.b", f"{inst}: decoder builds an instance", rd, rd.node, "decoder does not call the constructor")
         return
+    # every return path of the decoder binds the same constructor parameters (a path that leaves one to its default
+    # decodes a different object from the one that was encoded)
+    if len(ctor_calls) > 1:
+        def bound(c):
+            b = set(params[:len(c.args)]) | {k.arg for k in c.keywords if k.arg}
+            if any(k.arg is None for k in c.keywords) or any(isinstance(a, ast.Starred) for a in c.args):
+                b.add("*")
+            return b
+        sets = [bound(c) for c in ctor_calls]
+        full = set.union(*sets)
+        for c, b in zip(ctor_calls, sets):
+            ctx.check(b == full or "*" in b, "R-REPR.b", f"{inst}: every decoding path passes the same constructor parameters", rd, c,
+                      f"this path leaves {sorted(full - b)} to the constructor default while another path decodes it: the value encoded by the sender is lost on this path")
     roles = _writer_roles(repo, ci, w)
     for key, param in roles.items():
         for c in ctor_calls:
@@ -627,6 +640,7 @@ VARIANTS = [
      "            \"dest\": simple_repr(self.target),\n        }\n        return r\n\n    @classmethod\n    def _from_repr(cls, r):\n        return PseudoTreeLink(", "break", "R-REPR.b"),
     ("pt_link_source_twice", "pydcop/computations_graph/pseudotree.py", "return PseudoTreeLink(r[\"type\"], from_repr(r[\"source\"]), from_repr(r[\"target\"]))", "return PseudoTreeLink(r[\"type\"], from_repr(r[\"target\"]), from_repr(r[\"source\"]))", "break", "R-REPR.b"),
     ("maxsum_zip_swapped", "pydcop/algorithms/maxsum.py", "return MaxSumMessage(dict(zip(vals, costs)))", "return MaxSumMessage(dict(zip(costs, vals)))", "break", "R-REPR.b"),
+    ("mgm2_offer_empty_loses_flag", "pydcop/algorithms/mgm2.py", "        return Mgm2OfferMessage(dict(), r[\"is_offering\"])", "        return Mgm2OfferMessage()", "break", "R-REPR.b"),
     ("mgm2_offer_drop_gains", "pydcop/algorithms/mgm2.py", "                r[\"var_values\"] = var_values\n                r[\"gains\"] = gains", "                r[\"var_values\"] = var_values", "break", "R-REPR.b"),
     ("algodef_params_not_restored", "pydcop/algorithms/__init__.py", "        algo = cls(**args, params=params)", "        algo = cls(**args)", "break"),
     ("exprfn_fixed_vars_not_written", "pydcop/utils/expressionfunction.py", "        r['fixed_vars'] = simple_repr(self._fixed_vars)\n", "", "break", "R-REPR.b"),
